@@ -114,7 +114,11 @@ func decodeSliceLit(s *Symer, val ssa.Value) ([]map[string]string, bool) {
 			if mi, ok := ev.(*ssa.MakeInterface); ok {
 				ev = mi.X
 			}
-			if ld, ok := ev.(*ssa.UnOp); ok && ld.Op == token.MUL {
+			ld, isLoad := ev.(*ssa.UnOp)
+			if isLoad {
+				_, isLoad = ld.X.(*ssa.Alloc)
+			}
+			if isLoad && ld.Op == token.MUL {
 				if lit, ok := ld.X.(*ssa.Alloc); ok && lit.Referrers() != nil {
 					for _, fr := range *lit.Referrers() {
 						fa, ok := fr.(*ssa.FieldAddr)
